@@ -2,41 +2,30 @@
 package main
 
 import (
+	"encoding/json"
 	"fmt"
-	"time"
+	"math/rand"
 
-	"github.com/emitter-io/emitter/internal/network/mqtt"
-	"github.com/emitter-io/emitter/verif/bk"
+	"github.com/emitter-io/emitter/verif/drivers/session"
 )
 
 func main() {
-	b, err := bk.New(bk.Opts{NoCluster: true})
-	if err != nil {
-		panic(err)
+	mk := func(s string) json.RawMessage { return json.RawMessage(s) }
+	walk := []json.RawMessage{
+		mk(`{"n":"connect","c":"c1","u":"u-c1","will":{"on":false}}`),
+		mk(`{"n":"connect","c":"c2","u":"u-c2","will":{"on":true,"k":"kAll","w":["a"],"syn":"ok","retain":false,"p":"will-of-c2"}}`),
+		mk(`{"n":"sub","c":"c1","k":"kAll","w":["a"],"syn":"ok","last":0,"win":"none"}`),
+		mk(`{"n":"sub","c":"c2","k":"kAll","w":["a","b"],"syn":"ok","last":0,"win":"none"}`),
+		mk(`{"n":"pub","c":"c2","k":"kAll","w":["a"],"syn":"ok","me0":false,"ttl":3600,"via":"","retain":false,"qos":1,"p":"before"}`),
+		mk(`{"n":"hostile","c":"c2","cls":"sub-last-huge"}`),
 	}
-	key, _ := b.Key("#/", "rwslp", time.Unix(0, 0))
-	c1 := b.Attach()
-	c1.Send(&mqtt.Connect{ClientID: []byte("c1")})
-	c1.Barrier(2 * time.Second)
-	c1.Send(&mqtt.Subscribe{MessageID: 1, Subscriptions: []mqtt.TopicQOSTuple{{Topic: []byte(key + "/a/")}}})
-	c1.Barrier(2 * time.Second)
-	c0 := b.Attach()
-	c0.Send(&mqtt.Connect{ClientID: []byte("c0")})
-	c0.Barrier(2 * time.Second)
-	c0.Send(&mqtt.Publish{Header: mqtt.Header{QOS: 1, Retain: true}, MessageID: 3, Topic: []byte(key + "/a/"), Payload: []byte("retained")})
-	ps0, err0 := c0.Barrier(5 * time.Second)
-	fmt.Println("retained publish: err =", err0, len(ps0))
-	c0.Send(&mqtt.Subscribe{MessageID: 4, Subscriptions: []mqtt.TopicQOSTuple{{Topic: []byte(key + "/a/?last=5")}}})
-	ps0, err0 = c0.Barrier(5 * time.Second)
-	fmt.Println("subscribe with last=5 on a broker without cluster config: err =", err0)
-	for _, p := range ps0 {
-		fmt.Printf("  c0 <- %+v\n", bk.Abstract(p))
+	t, err := session.Replay("emitter", 2, "inmemory", walk, "x", rand.New(rand.NewSource(1)))
+	fmt.Println(err)
+	for _, e := range t.Events {
+		s := string(e)
+		if len(s) > 300 {
+			s = s[:300]
+		}
+		fmt.Println(s)
 	}
-	c1.Send(&mqtt.Publish{Header: mqtt.Header{QOS: 1}, MessageID: 8, Topic: []byte("emitter/presence/"), Payload: []byte(fmt.Sprintf(`{"key":%q,"channel":"a/","status":true}`, key))})
-	ps, err := c1.Barrier(5 * time.Second)
-	fmt.Println("presence status on a broker without cluster config: err =", err)
-	for _, p := range ps {
-		fmt.Printf("  c1 <- %+v\n", bk.Abstract(p))
-	}
-	fmt.Println("trie count after:", b.Svc.VerifTrie().Count())
 }
